@@ -4,7 +4,7 @@ import numpy as np
 from common import *
 
 ID = "C16"
-THEOREM_FILES = ["Summer.Props.C16"]
+THEOREM_FILES = ["Summer.Props.C16", "Summer.Props.C16Source"]
 TASK = "task"
 RULE = ("(a) exhaustive small lattice [a test, labelled as a test; the theorems cover all lengths]: all strictly increasing point sets of length "
         "1..4 (quick) / 1..6 (thorough) from a 9-point lattice, x at every lattice point and midpoint, below and above; piecewise, linear "
